@@ -99,6 +99,79 @@ def run(ctx):
         except Exception as ex:
             cases.append({'kind': 'dump', 'want': 'c15', 'raised': 1, 'nleaves': nl, 'present': 0, 'dumped': [], 'table': [],
                           'table2': [], '_rules': rules_in, '_exc': '%s: %s' % (type(ex).__name__, ex)})
+    # rule sets holding check objects the service built itself (not parsed from text): every built-in leaf kind,
+    # with a match that contains further colons too; the dump loads back to an equivalent set
+    from oslo_policy import _checks
+    for kinds in (('colon',), ('role', 'colon'), ('generic', 'path'), ('literal', 'bool'), ('rule', 'colon')):
+        lenv = lang.LeafEnv(kinds, 0)
+        leaves = [1, 2]
+
+        def obj(i, lenv=lenv):
+            kind, match = lenv.text(i).split(':', 1)
+            return _checks.registered_checks.get(kind, _checks.GenericCheck)(kind, match)
+        built = {'p:leaf': obj(1), 'p:not': _checks.NotCheck(obj(2)), 'p:and': _checks.AndCheck([obj(1), obj(2)]),
+                 'p:or': _checks.OrCheck([_checks.NotCheck(obj(1)), obj(2)])}
+        try:
+            extra = {n: _parser.parse_rule(t) for n, t in lenv.rules(leaves).items()}
+            rules = policy.Rules(dict(built, **extra))
+            dump = str(rules)
+            parsed_dump = json.loads(dump)
+            rules2 = policy.Rules.load(dump)
+            e1 = pc.enforcer_for({})
+            e1.set_rules(rules, use_conf=False)
+            e2 = pc.enforcer_for({})
+            e2.set_rules(rules2, use_conf=False)
+            for nm in built:
+                c = {'kind': 'dump', 'want': 'c15', 'raised': 0, 'nleaves': 2, 'present': 1 if nm in rules2 and nm in parsed_dump else 0,
+                     'dumped': [], 'table': [], 'table2': [], '_name': nm, '_rules': {k: str(v) for k, v in built.items()}, '_dump': dump,
+                     '_built': 'check objects constructed directly'}
+                if c['present']:
+                    c['dumped'] = lang.alpha(parsed_dump[nm], lenv.leaf_of)
+                    c['table'] = pc.check_table(rules[nm], leaves, lenv, e1)
+                    c['table2'] = pc.check_table(rules2[nm], leaves, lenv, e2)
+                cases.append(c)
+        except Exception as ex:
+            cases.append({'kind': 'dump', 'want': 'c15', 'raised': 1, 'nleaves': 2, 'present': 0, 'dumped': [], 'table': [],
+                          'table2': [], '_rules': {k: str(v) for k, v in built.items()}, '_exc': '%s: %s' % (type(ex).__name__, ex)})
+    # the other printer of rules: the sample generator states each registered default as text; a default given
+    # in the list-of-lists form reads back (uncommented) as a rule with the same decisions
+    import os
+    import shutil
+    import tempfile
+    from unittest import mock
+    from oslo_policy import generator
+    lenv = lang.LeafEnv(('role',), 0)
+    leaves = [1, 2, 3]
+    L = lenv.text
+    gdir = tempfile.mkdtemp(prefix='verif_c15_')
+    try:
+        for vi, value in enumerate(([[L(1), L(2)], [L(3)]], [], [[L(1)]], [L(1), L(2)], [[L(1), '@'], ['!']], [[L(1)], L(3)])):
+            for fmt in ('yaml', 'json'):
+                c = {'kind': 'dump', 'want': 'c15', 'raised': 0, 'nleaves': 3, 'present': 0, 'dumped': [], 'table': [], 'table2': [],
+                     '_name': 'p:x', '_rules': {'p:x': value}, '_built': 'registered default in list form, printed by the %s sample generator' % fmt}
+                try:
+                    d0 = policy.RuleDefault('p:x', value)
+                    out = os.path.join(gdir, 'sample.%d.%s' % (vi, fmt))
+                    with mock.patch('oslo_policy.generator.get_policies_dict', return_value={'sec': [d0]}):
+                        generator._generate_sample(['sec'], out, fmt)
+                    text = open(out, encoding='utf-8').read()
+                    c['_dump'] = text
+                    unc = '\n'.join(ln[1:] if ln.startswith('#"') else ln for ln in text.split('\n'))
+                    loaded = policy.parse_file_contents(unc)
+                    rules2 = policy.Rules.from_dict(loaded)
+                    c['present'] = 1 if 'p:x' in rules2 else 0
+                    if c['present']:
+                        e1 = pc.enforcer_for({})
+                        e2 = pc.enforcer_for({})
+                        e2.set_rules(rules2, use_conf=False)
+                        c['dumped'] = lang.alpha(loaded['p:x'], lenv.leaf_of)
+                        c['table'] = pc.check_table(d0.check, leaves, lenv, e1)
+                        c['table2'] = pc.check_table(rules2['p:x'], leaves, lenv, e2)
+                except Exception as ex:
+                    c.update({'raised': 1, '_exc': '%s: %s' % (type(ex).__name__, ex)})
+                cases.append(c)
+    finally:
+        shutil.rmtree(gdir, ignore_errors=True)
     # a long-lived rule set: dump, change in place (merge / item assignment / pop), dump and load again;
     # references inside the set have been evaluated before the change
     for s_i in range(30 if q else 600):
